@@ -799,13 +799,14 @@ static double get_entropy(const double temperature, const double f,
                           const int classical) {
     /* temperature is defined by T (K) */
     /* 'f' must be given in eV. */
-    double val;
+    /* Overflow-free form: x*n(x) - log(1 - exp(-x)) with x = f / (KB T). */
+    double val, em;
     if (classical) {
         return KB - KB * log(f / (KB * temperature));
     } else {
-        val = f / (2 * KB * temperature);
-        return 1 / (2 * temperature) * f * cosh(val) / sinh(val) -
-               KB * log(2 * sinh(val));
+        val = f / (KB * temperature);
+        em = -expm1(-val);
+        return KB * (val * exp(-val) / em - log(em));
     }
 }
 
@@ -813,15 +814,14 @@ static double get_heat_capacity(const double temperature, const double f,
                                 const int classical) {
     /* temperature is defined by T (K) */
     /* 'f' must be given in eV. */
-    /* If val is close to 1. Then expansion is used. */
-    double val, val1, val2;
+    /* Overflow-free form: x^2 exp(-x) / (1 - exp(-x))^2 with x = f / (KB T). */
+    double val, em;
     if (classical) {
         return KB;
     } else {
         val = f / (KB * temperature);
-        val1 = exp(val);
-        val2 = (val) / (val1 - 1);
-        return KB * val1 * val2 * val2;
+        em = -expm1(-val);
+        return KB * (val * exp(-val) / em) * (val / em);
     }
 }
 
